@@ -174,6 +174,9 @@ func (r *runner) profileChecks(views map[string]*LedgerView, commits []CommitRec
 	if r.has("revert-answers") {
 		r.addV(checkRevertAnswers(r, views)...)
 	}
+	if r.has("bulk") {
+		r.addV(checkBulk(r, views)...)
+	}
 }
 
 // checkRevertAnswers: per reverted transaction, exactly one caller was told success; everybody else
